@@ -43,7 +43,7 @@ def opaque_listener(E, st, fn, args, kwargs):
     """a listener is an arbitrary callable: it is recorded in the ghost call log of the event, may stop the
     propagation (or not), may raise; it does not touch the dispatcher's tables"""
     E.trusted.add("opaque callable (listener): logs itself in the event's ghost call log, sets the propagation flag "
-                  "arbitrarily, may raise; touches nothing else")
+                  "arbitrarily, returns None or any boolean, may raise; touches nothing else")
     ev = args[0]
     logk = parse_kind("seq[fn]")
     cur = E._read_alt(st, ev.t, "g_log", logk)
@@ -52,7 +52,9 @@ def opaque_listener(E, st, fn, args, kwargs):
     s1 = E.write_field(s1, ev, "_propagation_stopped", Kind("bool"), V(Kind("bool"), b))
     s2, e = E.mk_exc(s1, "Exception")
     e.aux["abstract"] = True
-    return [Out("ok", s1, VNONE), Out("raise", s2, e)]
+    # what it returns is its own business too (None, a boolean, ...): the dispatcher must not read anything into it
+    rb = z3.Bool(__import__("pyvc.state", fromlist=["fresh_name"]).fresh_name("listener_result"))
+    return [Out("ok", s1, VNONE), Out("ok", s1, V(Kind("bool"), rb)), Out("raise", s2, e)]
 
 # ---------------------------------------------------------------- registration
 R.shape("EventDispatcher", _listeners="dict[str,dict[int,list[fn]]]", _sorted="dict[str,list[fn]]")
